@@ -307,6 +307,43 @@ def _singleton_proof(prog, f, node, S, pm, depth=0):
     return None
 
 
+def _default_pick_proof(f, node, S, pm):
+    """x = list(S)[0] as a default that is overwritten whenever S has more than one member:  x = list(S)[0]; if len(S) > 1:
+    x = ...  The value of the pick only reaches the reads of x in the cases where nothing overwrote it; if S is bounded by
+    one member in each of those cases, the pick that matters is from a singleton."""
+    st = astx.stmt_of(node, pm)
+    if not (isinstance(st, ast.Assign) and len(st.targets) == 1 and isinstance(st.targets[0], ast.Name) and st.value is node):
+        return None
+    x = st.targets[0].id
+    blk = pm.get(st)
+    body = next((getattr(blk, fld) for fld in ("body", "orelse") if isinstance(getattr(blk, fld, None), list) and any(b is st for b in getattr(blk, fld))), None)
+    if body is None:
+        return None
+    after = body[next(i for i, b in enumerate(body) if b is st) + 1:]
+    # first statement of the block (after the default) that reads x outside an assignment to x
+    use = None
+    for b in after:
+        reads = [n for n in ast.walk(b) if isinstance(n, ast.Name) and n.id == x and isinstance(n.ctx, ast.Load)]
+        if reads:
+            use = b
+            break
+    if use is None or any(isinstance(n, ast.Name) and n.id == x and isinstance(n.ctx, ast.Store) for n in ast.walk(use)):
+        return None   # no reader in the block, or the first reader also re-binds x: not the default-then-override arrangement
+    cases = astx.value_cases(f.node, x, use, pm)
+    if not cases:
+        return None
+    N = Normalizer(f.node, inline=False, int_atoms=lambda a: True)
+    sk = N.key(S)
+    mine = [(c, v) for c, v in cases if v is node]
+    if not mine:
+        return None
+    for conds, _ in mine:
+        cl = literals(N.conj(list(conds)))
+        if not (f"not ge(len({sk}), 2)" in cl or f"eq(len({sk}), 1)" in cl):
+            return None
+    return f"default that survives only where len({sk}) <= 1 (overwritten in every other case)"
+
+
 def r2_positional_picks(ctx):
     prog = ctx.prog
     n = 0
@@ -342,6 +379,8 @@ def r2_positional_picks(ctx):
                     it = astx.unique_def(f.node, astx.u(lp.iter)) if isinstance(lp.iter, ast.Name) else lp.iter
                     if it is not None and astx.u(it).endswith(".remaining"):
                         proof = "picked member is used only to look up the score shared by its equal-score group"
+            if proof is None:
+                proof = _default_pick_proof(f, node, S, pm)
             if proof:
                 ctx.ok(f, node, f"{f.short}: pick `{astx.u(node)[:40]}` is order-independent", proof)
             else:
